@@ -219,3 +219,9 @@ claim("C32", "must-pass-through of canonical-form gates + liveness + closed-worl
       "check_complete (= check_end on the same decoder); every PrepareError variant and PreparationSettings limit is live (limits followed "
       "interprocedurally into the digest helpers); every prepare_from_* impl derives its Summary from a ConcatenatedDigest / SummarizedRaw "
       "primitive or a delegated prepare with no separate un-hashed decode; raw primitives hash the consumed slice. Collision-freeness is not decided.")
+
+claim("C40", "who-may-call table + guard dominance of the state-machine transition + argument-origin of the applied rule set / returned badge",
+      "Decides (v1 and v2): update_role_assignment is called only by the five confirm handlers, each behind transition_mut(..)? and applying "
+      "the transition's Ok payload (or the constant locked rule set, returning the transition's bucket); the timed-confirm transition returns Ok "
+      "only when compare_against_current_time(stored deadline, Gte) is true and the proposal validates; quick-confirm transitions validate the "
+      "proposal; create_proof can reject a locked primary. The state machine over arbitrary interleavings is not decided.")
